@@ -74,3 +74,46 @@ pub fn small_games() -> Vec<(&'static str, G)> {
     ));
     v
 }
+
+fn mix(mut x: u64) -> u64 {
+    x ^= x >> 33;
+    x = x.wrapping_mul(0xff51afd7ed558ccd);
+    x ^= x >> 33;
+    x = x.wrapping_mul(0xc4ceb9fe1a85ec53);
+    x ^= x >> 33;
+    x
+}
+
+/// Tree of the given depth; node kinds/players/branching derived from (seed, path). Every decision node
+/// has its own infoset (so perfect recall holds trivially). `chance`: allow chance nodes.
+pub fn family_tree(seed: u64, depth: u32, path: u64, chance: bool) -> N {
+    let h = mix(seed.wrapping_mul(1_000_003).wrapping_add(path));
+    if depth == 0 {
+        return t(((h % 17) as f64 - 8.0) / 2.0);
+    }
+    let width = 2 + (h >> 8) % 2; // 2 or 3 children
+    let kind = (h >> 16) % 5;
+    let kidsv = |n: u64| -> Vec<N> { (0..n).map(|i| family_tree(seed, depth - 1, path * 4 + i + 1, chance)).collect() };
+    if chance && kind == 0 {
+        let ks = kidsv(width);
+        c(None, ks.into_iter().enumerate().map(|(i, n)| (1.0 + ((h >> (20 + i)) % 3) as f64, n)).collect())
+    } else {
+        let who = if (h >> 24) % 2 == 0 { One } else { Two };
+        let name = format!("i{path}");
+        let ks = kidsv(width);
+        let acts = ["a", "b", "c"];
+        N(GameNode::Player(who, name, ks.into_iter().enumerate().map(|(i, n)| (acts[i].to_string(), n)).collect()))
+    }
+}
+
+pub fn family(chance: bool) -> Vec<(String, G)> {
+    let mut v = Vec::new();
+    for seed in 1..=6u64 {
+        for depth in 2..=5u32 {
+            if let Ok(g) = Game::from_root(family_tree(seed, depth, 0, chance)) {
+                v.push((format!("fam(seed={seed},depth={depth},chance={chance})"), g));
+            }
+        }
+    }
+    v
+}
